@@ -174,7 +174,7 @@ theorem Rep.toG {G : GCtx} (ok : G.OK) {pi : PInfo} (hpi : pi ∈ G.procs) {sp d
     {σ : X.St} {mem : Mem} (h : Rep (KOf G pi sp dep hi) σ mem) : GRep G σ mem := by
   refine ⟨?_, h.consts⟩
   intro n w hn hg
-  have hl : σ.locals.lookup n = none := h.gvis n hn
+  have hl : σ.locals.lookup n = none := h.gvis n (List.mem_append_left _ hn)
   have hv : G.xc.genv.lookup n = some .var := (ok.genv_vars n).mp hn
   have hr : X.readName (KOf G pi sp dep hi).xc σ n = .ok (.int w) := by
     show X.readName G.xc σ n = .ok (.int w)
@@ -322,7 +322,16 @@ theorem rep_callee {G : GCtx} (ok : G.OK) {pi : PInfo} (hpi : pi ∈ G.procs) (w
     above := fun a _ => rfl
     gvis := by
       intro n hn
-      exact hglob n ((ok.genv_vars n).mp hn)
+      rcases List.mem_append.mp hn with hn | hn
+      · exact hglob n ((ok.genv_vars n).mp hn)
+      · apply lookup_none_of_not_mem
+        show n ∉ (bindF pi.p.formals ws ++ bindL pi.p.locals).map (·.1)
+        rw [hnames]
+        intro hm
+        have h1 := ok.noshadow pi hpi n hm
+        obtain ⟨p, hp⟩ := ok.pnames_mem n hn
+        rw [h1] at hp
+        simp at hp
     depth := rfl }
 
 /-! ### The callee -/
